@@ -95,7 +95,16 @@ def build_pool():
     ven1.cells[0].outputs = [nbformat.v4.new_output("display_data", data={"text/plain": "a chart", "application/vnd.acme.chart": "series one\nbar chart v1\n"})]
     ven2 = copy.deepcopy(ven1)
     ven2.cells[0].outputs[0]["data"]["application/vnd.acme.chart"] = "series one\nbar chart v2\n"
+    # both sides append the same new cell, run with different results: the merger aligns the inserted cells with a
+    # differ configuration of its own (a copy of the notebook configuration taken inside the merge)
+    def appended(text):
+        nb = copy.deepcopy(A)
+        nb.cells.append(nbformat.from_dict({"cell_type": "code", "id": "appended", "metadata": {}, "execution_count": 9,
+                                            "source": "report(total)\n",
+                                            "outputs": [{"output_type": "stream", "name": "stdout", "text": text}]}))
+        return nb
     pool = {
+        "m_ins": ("merge", A, appended("total: 41\n"), appended("total: 42\nsecond line\n")),
         "d_vendor": ("diff", ven1, ven2),
         "d_raw": ("diff", A, rawA), "d_plain": ("diff", A, B), "d_rev": ("diff", B, A), "d_lol": ("diff", lol1, lol2), "d_loo": ("diff", loo1, loo2),
         "d_obj": ("diff", obj1, obj2), "d_swap": ("diff", sw1, sw2), "d_swaprev": ("diff", sw2, sw1),
@@ -249,7 +258,7 @@ def run():
     os.chdir(work)
     if chk.quick:
         maxlen = 3
-        calls = ["d_plain", "d_raw", "d_vendor", "d_lol", "d_loo", "d_obj", "d_swap", "d_swaprev", "m_lol"]
+        calls = ["d_plain", "d_raw", "d_vendor", "d_lol", "d_loo", "d_obj", "d_swap", "d_swaprev", "m_lol", "m_ins"]
         targets = [ALLCATS, ("sources",), ("sources", "outputs", "attachments", "metadata", "id")]
         maps = ["cellmeta-keys", "nbmeta-true"]
     else:
